@@ -127,7 +127,25 @@ def run_schedule(seed, kind, strategy, scratch, park=None, stick=0.9, pct_depth=
                     r = c.root()
                     tok = '%s-%d-%d' % (name, k, next(uid))
                     idx = rnd.sample(range(NCELL), rnd.choice([1, 2, 2, 3]))
-                    sp_at = rnd.choice([None, None, 'before', 'middle', 'after', 'rolled-back'])
+                    sp_at = rnd.choice([None, None, 'before', 'middle', 'after', 'rolled-back', 'rc-write-rolled-back', 'rc-write-rolled-back'])
+                    if sp_at == 'rc-write-rolled-back':
+                        # readCurrent(dep), then a write to dep that goes into a savepoint and is rolled back: the dependency stays
+                        others0 = [i for i in range(NCELL) if i not in idx]
+                        if others0:
+                            if rnd.random() < 0.5:
+                                r['c%d' % idx[0]].tok            # (joined or not yet joined when the first savepoint is taken)
+                                r['c%d' % idx[0]]._p_changed = True
+                            dep = r['c%d' % rnd.choice(others0)]
+                            tk = dep.tok
+                            rec['reads'].append((dep._p_oid, dep._p_serial, tk))
+                            c.readCurrent(dep)
+                            rec['rc'].append((dep._p_oid, dep._p_serial))
+                            sp = tm.savepoint()
+                            dep.tok = 'junk-to-be-rolled-back'
+                            tm.savepoint()
+                            sp.rollback()
+                            if dep.tok != tk:
+                                rec['own_write_lost'] = True
                     if sp_at == 'before':
                         tm.savepoint()
                     for n_i, i in enumerate(idx):
